@@ -160,6 +160,47 @@ fn gen_plain(ch: &mut Chooser, host: &Host, n: usize) -> String {
     text
 }
 
+/// Raw spellings of every built-in intrinsic instruction of a register-language host: `ins_N(args)` with every choice
+/// of {register, literal} per plain operand (jump operands name a label), taken from the game's built-in signature and
+/// intrinsic tables (data).  These binaries exist (any tool or hand-written `ins_N(..)` can emit them) and decompile into
+/// expression / jump syntax, so they take the intrinsic raise and lower paths with operand shapes the sugar never produces.
+fn raw_intrinsic_bodies(host: &Host) -> Vec<(String, &'static str)> {
+    let Some((ints, floats)) = &host.regs else { return vec![] };
+    let lang = if host.tool.kind == Kind::Ecl { truth::LanguageKey::Ecl } else { truth::LanguageKey::Anm };
+    let mut scope = truth::Builder::new().capture_diagnostics(true).build();
+    let mut truth = scope.truth();
+    let m = truth::verif_hooks::core_mapfile(truth.ctx().emitter, host.tool.game, lang);
+    let sigs: BTreeMap<i32, String> = m.ins_signatures.iter().map(|(k, v)| (*k, v.value.clone())).collect();
+    let mut out = vec![];
+    for (op, intr) in &m.ins_intrinsics {
+        let Some(sig) = sigs.get(op) else { continue };
+        // operand letters (attributes in parentheses are dropped; padding takes no argument)
+        let mut letters = vec![]; let mut depth = 0;
+        for c in sig.chars() { match c { '(' => depth += 1, ')' => depth -= 1, _ if depth > 0 => {}, '_' | '-' => {}, c if c.is_ascii_alphabetic() => letters.push(c), _ => {} } }
+        let plain: Vec<usize> = letters.iter().enumerate().filter(|(_, c)| matches!(c, 'S' | 'f')).map(|(i, _)| i).collect();
+        if plain.len() > 4 || letters.iter().any(|c| !matches!(c, 'S' | 'f' | 'o' | 't')) { continue; }
+        for choice in 0..(1u32 << plain.len()) {
+            let args: Vec<String> = letters.iter().enumerate().map(|(i, c)| {
+                let k = plain.iter().position(|&p| p == i);
+                let lit = k.map_or(false, |k| choice >> k & 1 == 1);
+                match c {
+                    'S' => if lit { format!("{}", 3 + i) } else { format!("$REG[{}]", ints[i % 4]) },
+                    'f' => if lit { format!("{}.5", 2 + i) } else { format!("%REG[{}]", floats[i % 4]) },
+                    'o' => "offsetof(L0)".to_string(),
+                    _ => "timeof(L0)".to_string(),
+                }
+            }).collect();
+            // all *input* operands literal: the decompiled expression / condition is constant and is folded on recompilation
+            let is_lit = |k: usize| choice >> k & 1 == 1;
+            let all_inputs_literal = if intr.value.starts_with("BinOp") { plain.len() == 3 && !is_lit(0) && is_lit(1) && is_lit(2) }
+                else if intr.value.starts_with("UnOp") { plain.len() == 2 && !is_lit(0) && is_lit(1) }
+                else if intr.value.starts_with("CondJmp(") { plain.len() == 2 && is_lit(0) && is_lit(1) } else { false };
+            out.push((format!("{{ L0: m0(); ins_{op}({}); m0(); }}", args.join(", ")), if all_inputs_literal { "raw-intrinsic-lits" } else { "raw-intrinsic" }));
+        }
+    }
+    out
+}
+
 const LOSS_WARNINGS: [&str; 11] = ["will be lost", "lost", "ignoring nonzero data found in padding", "will be truncated at first null", "missing null terminator will be appended",
     "missing end-of-script marker will be added", "only one will be kept", "unexpected leftover bytes", "unused mask bits", "non-boolean value found", "strange image data size"];
 
@@ -210,6 +251,7 @@ pub fn check_seed_ex(seed: &Seed, opt_sets: &[u32], widths: &[usize], with_sigs_
                                 && b2[o..o + 4] == 0x7FC00000u32.to_le_bytes()
                                 && b2[o + 4..] == seed.bytes[o + 4..];
                             let sig = if nan_lost { "C01:bytes-differ:nan-bits-lost".to_string() }
+                                else if seed.label.starts_with("raw-intrinsic-lits:") { "C01:bytes-differ:intrinsic-with-all-literal-operands-is-refolded".to_string() }
                                 else if has_const_cond_jump(&text) { "C01:bytes-differ:conditional-jump-on-two-literals-is-refolded".to_string() } else { format!("C01:{}:bytes-differ:{}", seed.host, seed.label) };
                             out.failures.push(Failure { signature: sig, detail: detail("bytes-differ", json!({"first_diff_offset": pos, "len_original": seed.bytes.len(), "len_recompiled": b2.len(), "text": text, "decompile_diag": d.diag})) });
                         } else { out.classes.push("identical".into()); }
@@ -290,6 +332,17 @@ pub fn run(tier: &str) -> Report {
                 }}
             }}
         }
+        if host.name == "ecl06" {
+            // EoSD's two-part conditional jump (ins_27/28 = compare, ins_29.. = jump on the hidden flag) under difficulty
+            // labels: lone compares, compare + jump with equal / different labels, two labelled pairs in a row
+            let labels = ["0", "1", "01", "23", "3", "0123", "02", "*"];
+            for a in labels { for b in labels {
+                bodies.push((format!("{{ {{\"{a}\"}}: ins_27(A, 10); {{\"{b}\"}}: ins_27(A, 20); m0(); }}"), "diffrun-cmp"));
+                bodies.push((format!("{{ {{\"{a}\"}}: ins_28(X, 1.5); {{\"{b}\"}}: ins_28(X, 2.5); m0(); }}"), "diffrun-cmp"));
+                bodies.push((format!("{{ L0: {{\"{a}\"}}: ins_27(A, 10); {{\"{b}\"}}: ins_29(timeof(L0), offsetof(L0)); m0(); }}"), "diffrun-cmp"));
+                bodies.push((format!("{{ L0: {{\"{a}\"}}: ins_27(A, 10); {{\"{a}\"}}: ins_31(timeof(L0), offsetof(L0)); {{\"{b}\"}}: ins_27(A, 20); {{\"{b}\"}}: ins_31(timeof(L0), offsetof(L0)); m0(); }}"), "diffrun-cmp"));
+            }}
+        }
         if host.has_difficulty && !reduced {
             // the same runs with a time label inside (a folded statement has only one time): all triples of pairwise
             // disjoint masks, label before the 2nd or the 3rd instruction
@@ -301,6 +354,7 @@ pub fn run(tier: &str) -> Report {
                 bodies.push((format!("{{ {{\"{a}\"}}: mS(10); +5: {{\"{b}\"}}: mS(20); {{\"{c}\"}}: mS(30); }}"), "diffrun-timed"));
             }}}
         }
+        if host.regs.is_some() { for (b, fam) in raw_intrinsic_bodies(&host) { bodies.push((b, fam)); } }
         let mut seen_plain = BTreeSet::new();
         let (pn, pb) = if reduced { if thorough { (3, 3) } else { (2, 2) } } else if thorough { (4, 4) } else { (3, 3) };
         for n in 1..=pn { explore_dfs(pb, 100_000, &|ch| gen_plain(ch, &host, n), &mut |_, b| { if seen_plain.insert(b.clone()) { bodies.push((b, "plain")); } }); }
@@ -379,7 +433,9 @@ pub fn run(tier: &str) -> Report {
     let widths: Vec<usize> = if thorough { vec![99, 1, 20, 40, 79, 200] } else { vec![99, 20] };
     let results = par_map(&seeds, Some(deadline), |i, s| {
         // bundled files and every 50th generated seed get all widths 1..=200 (thorough) on the default options
-        let o = check_seed_ex(s, &opt_sets, &widths, thorough || i % 8 == 0);
+        // seeds of the all-games hosts: default and all-off options at the default width (quick tier)
+        let light = !thorough && (s.host.contains("-th") || s.host.contains("-alcostg"));
+        let o = if light { check_seed_ex(s, &[0, 31], &[99], false) } else { check_seed_ex(s, &opt_sets, &widths, thorough || i % 8 == 0) };
         let extra = if s.source.is_none() || i % 50 == 0 { let ws: Vec<usize> = if thorough { (1..=200).collect() } else { vec![1, 2, 3, 10, 40, 79, 80, 100, 200] }; Some(check_seed(s, &[0], &ws)) } else { None };
         (o, extra)
     });
